@@ -28,7 +28,8 @@ from vf.oracles.struct import struct, diff
 PROPERTY = 'C20'
 RULE = ('cases over a fixed corpus of calls (parse of harvested accepted / rejected statements and of truncated '
         'statements; plan of harvested mindsdb statements and of hand-written predictor / CTE / join / DML queries '
-        'under 4 catalog shapes; parse of the production-pair sentences of the live grammars; render of harvested statements and of '
+        'under 4 catalog shapes; parse of the production-pair sentences of the live grammars; printing (str) of the trees of harvested statements and of '
+        'statements full of names that need back-quotes; render of harvested statements and of '
         'hand-written statements with target-specific literals to 7 targets; quick = a fixed sub-sample, thorough = '
         'all): (a) schedule = 2/3/4/8 threads x drawn call sequences x sharing mode {none, catalog, render} x '
         'switching {free-running with 1 us switch interval, forced hand-over at drawn line boundaries inside the '
@@ -204,6 +205,17 @@ RENDER_SQL = [
     "select * from t1 where a like 'x\\\\_%' and b in ('q\\\\', 'r')",
 ]
 RENDER_SET = set(RENDER_SQL)
+# names that have to be printed in back-quotes (reserved words, blanks): printing consults tables built on first use
+PRINT_SQL = [
+    'select `select`, `from`, t.`where` from `model` where `id` = 1',
+    'select `a b`, `order`.`by` from `group` as `limit`',
+    'insert into `table` (`values`, `into`) values (1, 2)',
+    'update `set` set `update` = 1 where `where` = 2',
+    'select * from `join` join `on` on `join`.`left` = `on`.`right`',
+    'delete from `from` where `delete` = 1',
+    'select `case`, `when`, `then`, `else`, `end` from `union`',
+]
+PRINT_SET = set(PRINT_SQL)
 
 
 # --------------------------------------------------------------------------------------------- calls and results
@@ -256,11 +268,14 @@ def run_call(call, env):
     """Execute one call; the result is a comparable value: ('tree'|'plan', image) | ('text', str) | ('exc', type, msg)."""
     from mindsdb_sql import parse_sql
     op = call['op']
-    if op not in ('parse', 'plan', 'render'):
+    if op not in ('parse', 'plan', 'render', 'print'):
         raise ChildError('unknown op ' + str(op))
     try:
         if op == 'parse':
             return ('tree', struct(parse_sql(call['sql'], call['dialect'])))
+        if op == 'print':
+            # the tree's own rendering (what SqlalchemyRender falls back to, what planner messages quote)
+            return ('text', str(parse_sql(call['sql'], call['dialect'])))
         if op == 'plan':
             from mindsdb_sql.planner import plan_query
             tree = parse_sql(call['sql'], 'mindsdb')
@@ -474,6 +489,12 @@ def build_calls(tier):
     for i, x in enumerate(acc):
         if full or i % 3 == 0:
             add({'op': 'render', 'sql': x['sql'], 'dialect': x['dialect'], 'target': TARGETS[(i // 3) % len(TARGETS)]})
+    for i, x in enumerate(acc):
+        if full or i % 3 == 1:
+            add({'op': 'print', 'sql': x['sql'], 'dialect': x['dialect']})
+    for q in PRINT_SQL:
+        for d in corpus.DIALECTS:
+            add({'op': 'print', 'sql': q, 'dialect': d})
     for q in RENDER_SQL:
         for t in TARGETS:
             add({'op': 'render', 'sql': q, 'dialect': 'mindsdb', 'target': t})
@@ -503,6 +524,8 @@ def call_class(call, res):
                 return 'plan-pred:' + call['catalog']
             return 'plan-hand:' + call['catalog']
         return 'plan-ok' if ok else 'plan-fail'
+    if op == 'print':
+        return 'print-hand' if call['sql'] in PRINT_SET else 'print-ok'
     if call['sql'] in RENDER_SET:
         return 'render-hand'         # one statement for every target: whatever is remembered per compiler class shows
     return 'render-ok' if ok else 'render-fail'
@@ -971,12 +994,14 @@ def judge(case, col):
 # --------------------------------------------------------------------------------------------- generation
 
 W_NONE = ['parse-ok'] * 4 + ['parse-fail'] * 3 + ['parse-fail-suggest'] * 3 + [
-    'plan-ok', 'plan-fail', 'plan-hand', 'plan-cte', 'plan-pred', 'render-ok', 'render-hand', 'render-fail']
+    'plan-ok', 'plan-fail', 'plan-hand', 'plan-cte', 'plan-pred', 'render-ok', 'render-hand', 'render-fail',
+    'print-ok', 'print-hand', 'print-hand', 'print-hand']
 W_CATALOG = ['plan-pred'] * 5 + ['plan-cte'] * 3 + ['plan-hand'] * 2 + ['plan-ok'] * 2 + [
     'plan-fail', 'parse-ok', 'parse-fail-suggest', 'render-ok']
 W_RENDER = ['render-ok'] * 4 + ['render-hand'] * 4 + ['render-fail'] * 2 + ['parse-ok', 'parse-fail', 'plan-ok', 'plan-pred']
 W_HISTORY = ['parse-ok'] * 2 + ['parse-fail', 'parse-fail-suggest', 'plan-pred', 'plan-pred', 'plan-cte', 'plan-cte',
-                                'plan-hand', 'plan-ok', 'plan-fail', 'render-ok', 'render-hand', 'render-hand', 'render-fail']
+                                'plan-hand', 'plan-ok', 'plan-fail', 'render-ok', 'render-hand', 'render-hand', 'render-fail',
+                                'print-ok', 'print-hand']
 PER_CATALOG = ('plan-hand', 'plan-cte', 'plan-pred')
 
 
@@ -989,7 +1014,7 @@ def a_call(draw, weights, focus):
     return draw(st.sampled_from(pool))
 
 
-FINE_FOR_MODE = {'none': ['entry', 'entry', 'parser', 'parser', 'ast', 'planner', 'render', 'none'],
+FINE_FOR_MODE = {'none': ['entry', 'entry', 'parser', 'parser', 'ast', 'ast', 'planner', 'render', 'none'],
                  'catalog': ['planner', 'planner', 'planner', 'none'],
                  'render': ['render', 'render', 'ast', 'none']}
 
